@@ -331,6 +331,135 @@ def gen_ops(rnd, m, nops, small):
 
 SIZES = [0, 1, 4095, 4096, 4097, 8193, 20000]
 FAULT_OPS = ("new_fault", "reinit_fault")
+
+# ---- round 4: extreme numeric arguments -------------------------------------------------------------------------------
+HUGE = 1 << 30          # MBuffObj.tla: Huge.  An index / count / length argument beyond +-Huge is handed to the specification as +-Huge
+I64MAX, I64MIN = (1 << 63) - 1, -(1 << 63)
+EXTREMES = sorted(set([(1 << 31) - 1, (1 << 31) - 2, (1 << 31) - 8, 1 << 31, 1 << 32, (1 << 32) + 1, (1 << 32) + 3, 3 * (1 << 32) + 1, 1 << 40,
+                       1 << 62, I64MAX, I64MAX - 1, I64MAX - 7, I64MAX - 8, I64MIN, I64MIN + 1, -1, -(1 << 31), -(1 << 31) - 1, -(1 << 32),
+                       -(1 << 32) - 1, -(1 << 40), -(1 << 62)]))
+# integer (index / count / length) parameters of the operations, by argument position
+INT_PARAMS = {"subbuff": (0, 1), "subbuff_to_ptr": (0, 1), "splice": (0, 1), "splice_from_ptr": (0, 1), "splice_from_ptr_null": (0, 1, 2),
+              "ncmp": (1,), "ncmp_with_ptr": (1,), "new_from_ptr_null": (0,), "new_from_buff": (1,), "new_from_buff_null": (0, 1),
+              "append_from_ptr_null": (0,), "prepend_from_ptr_null": (0,)}
+
+
+def clip_args(op, args):
+    pos = INT_PARAMS.get(op)
+    if not pos:
+        return args, None
+    out, raw = list(args), None
+    for k in pos:
+        v = args[k]
+        if isinstance(v, int) and not isinstance(v, bool) and abs(v) > HUGE:
+            out[k] = HUGE if v > 0 else -HUGE
+            raw = raw or {}
+            raw[str(k)] = str(v)
+    return out, raw
+
+
+def extreme_execs(rnd, quick):
+    """EVERY integer parameter of every operation at the extreme values, crossed with small NON-ZERO values of the other
+    integer parameters and a few object sizes.  The expectation comes from the same actions (argument classes +-Huge)."""
+    execs = []
+    for n in ([1, 5, 300] if quick else [1, 2, 5, 9, 300, 4097]):
+        t = rnd_bytes(rnd, n, "any")
+        small_idx = sorted(set([0, 1, 2, n - 1, -1, -2, -n, -(n - 1)]))
+        small_cnt = [1, 2, 0, -1, n, n + 1]
+        # INT64_MAX - k for every k up to the length: the sums idx + cnt around the wrap
+        near = sorted(set([I64MAX - k for k in range(0, min(n, 12) + 2)] + [I64MIN + k for k in range(0, 3)]))
+        ext = sorted(set(EXTREMES + near))
+        m = Mirror()
+        m.a = list(t)
+        ops = [("new_from_ptr", [t])]
+
+        def sub_model(i, c):
+            L = len(m.a)
+            k = i + L if i < 0 else i
+            cc = L - k + c if c <= 0 else c
+            return 0 <= k < L and cc >= 0
+
+        pairs = [(i, c) for i in small_idx for c in ext] + [(i, c) for i in ext for c in small_cnt] + \
+                [(i, c) for i in (I64MAX, I64MIN, 1 << 32, -(1 << 32)) for c in (I64MAX, I64MIN, 1 << 32)]
+        for i, c in pairs:
+            ops.append(("subbuff_to_ptr", [i, c]))
+            ops.append(("subbuff", [i, c]))
+            if sub_model(i, c):
+                ops.append(("b_cmp_a", []))
+                ops.append(("b_del", []))
+        execs.append(ops)
+        # splice family: the value changes only for in-range requests (none with an extreme argument is in range, except
+        # that the model decides) - the mirror follows the ideal
+        ops = [("new_from_buff", [t, n + 3]), ("b_new_from_ptr", [[7, 8]])]
+        m.a = list(t)
+        ins = [1, 2, 3]
+        for i, c in pairs:
+            L = len(m.a)
+            k = i + L if i < 0 else i
+            ok = 0 <= k < L and 0 <= c <= L - k
+            if c < 0 and 0 <= k < L and k != 0 and (0 <= k + L + c <= L - k or 0 <= L - k + c <= L - k):
+                continue                      # E/X: negative count where the two readings may differ
+            if c < 0 and 0 <= k < L:
+                cc = k + L + c
+                ok = 0 <= cc <= L - k
+                c_eff = cc
+            else:
+                c_eff = c
+            form = rnd.choice(["ptr", "b", "self", "null", "ptrnull"])
+            if form == "ptr":
+                ops.append(("splice_from_ptr", [i, c, ins]))
+                new = ins
+            elif form == "ptrnull":
+                ops.append(("splice_from_ptr_null", [i, c, rnd.choice(ext)]))
+                new = []
+            else:
+                ops.append(("splice", [i, c, form]))
+                new = {"b": [7, 8], "self": list(m.a), "null": []}[form]
+            if ok:
+                m.a = m.a[:k] + new + m.a[k + c_eff:]
+                if len(m.a) > 40 or len(m.a) == 0:
+                    ops.append(("reinit", ["ptr", "-", t]))
+                    m.a = list(t)
+        for v in ext:
+            if v >= 0:
+                ops.append(("ncmp", ["b", v])); ops.append(("ncmp", ["self", v]))
+            ops.append(("append_from_ptr_null", [v])); ops.append(("prepend_from_ptr_null", [v]))
+        execs.append(ops)
+        ops = []
+        for v in ext:
+            ops += [("new_from_ptr_null", [v]), ("append_from_ptr", [[5]]), ("del", []),
+                    ("new_from_buff_null", [v, rnd.choice([0, 3, 4096])]), ("append_from_ptr", [[5]]), ("del", [])]
+            if v < 0:
+                ops += [("new_from_buff", [t, v]), ("rindex", [t[-1]]), ("del", [])]      # capacity = max(size, len)
+        execs.append(ops)
+    return execs
+
+
+# ---- round 4: copies carry hidden state - dup, then the FIRST mutation of the copy (and of the original) -----------------
+
+def copy_execs(rnd, quick):
+    execs = []
+    b_muts = [("b_append_from_ptr", [[9, 9]]), ("b_clear", [7]), ("b_reverse", []), ("b_trim", []), ("b_append_a", []), ("b_del", [])]
+    a_muts = [("append_from_ptr", [[9, 0]]), ("prepend_from_ptr", [[0, 9]]), ("splice_from_ptr", [0, 1, [5, 5, 5]]), ("splice", [0, 1, "null"]),
+              ("trim", []), ("reverse", []), ("clear", [0]), ("sprintf", ["s", [65, 66], 0]), ("append", ["self"]), ("prepend", ["self"]),
+              ("splice", [0, 0, "self"]), ("done", []), ("reinit", ["ptr", "-", [1]]), ("reinit", ["fd", "pipe", [1, 2]])]
+    for n in ([0, 1, 6, 4097] if quick else [0, 1, 2, 6, 64, 4095, 4096, 4097]):
+        t = [32] + rnd_bytes(rnd, n - 2, "any") + [9] if n >= 2 else rnd_bytes(rnd, n, "any")
+        origins = [[("new_from_ptr", [t])], [("new_from_buff", [t, n + 100])], [("new_from_buff", [t, 0])],
+                   [("new_from_fd", ["pipe", t])], [("new_from_ptr", [t + [1, 2, 3]]), ("splice", [-3, 3, "null"])] if n else [("new", [])],
+                   [("new_from_ptr", [[4] + t]), ("done", []), ("reinit", ["buff", "-", t])]]
+        if t and 0 not in t and 37 not in t:
+            origins.append([("new", []), ("sprintf", ["s", t, 0])])
+        for org in origins:
+            for mu in b_muts:
+                # the copy is mutated first, then the original, then both are read and deleted in either order
+                execs.append(org + [("dup", []), mu] + ([("b_cmp_a", [])] if mu[0] != "b_del" else []) +
+                             [("append_from_ptr", [[3]]), ("reverse", []), ("rindex", [3])])
+            for mu in a_muts:
+                # the ORIGINAL is deleted, a copy of the copy is made, and that one is mutated first
+                execs.append(org + [("dup", []), ("del", []), ("b_dup_to_a", []), mu, ("b_cmp_a", []), ("b_reverse", []), ("cmp", ["b"]),
+                                    ("b_del", []), ("append_from_ptr", [[3]])])
+    return execs
 THRESHOLDS = [8, 16, 32, 64, 128, 256, 512, 1024, 2048, 4096, 8192]
 THRESHOLDS_QUICK = [16, 128, 1024, 4096, 8192]
 
@@ -525,6 +654,7 @@ def gen_executions(ctx):
             execs.append(sweep_exec(rnd, n))
     execs += value_execs(rnd, quick)
     execs += fault_execs(rnd, quick)
+    execs += copy_execs(rnd, quick)
     # 2. pointer / buffer constructors with the same sizes
     for n in SIZES:
         m = Mirror()
@@ -574,14 +704,14 @@ def validate_events(ctx, events, tag):
     raise Broken("trace validation run failed without a verdict:\n%s\n...\n%s" % ((res.violation or "")[:1500], "\n".join(res.tail[-6:])))
 
 
-def record_and_validate(ctx, exe, execs, variant="direct", tag="mbuff"):
+def record_and_validate(ctx, exe, execs, variant="direct", tag="mbuff", env=None):
     """Runs the programs in record mode on the implementation, turns the records into events and lets TLC validate
     them against MBuffObjTrace.  Returns a dict of counters; failures are reported through ctx.report."""
     from vlib.replay import run_scripts
     texts = [script_of(k + 1, ops) for k, ops in enumerate(execs)]
     # record mode has no expected tokens to size the harness's token builders from: VH_TOKEN_MAX sizes them outside the
     # measured heap window, so executions with 20000-byte values get the heap-balance postlude too
-    fails, recs, ns, nt = run_scripts(exe, [variant], texts, ctx.rundir, jobs=4, env={"VH_TOKEN_MAX": "400000"}, tag="rec-" + tag)
+    fails, recs, ns, nt = run_scripts(exe, [variant], texts, ctx.rundir, jobs=4, env=dict({"VH_TOKEN_MAX": "400000"}, **(env or {})), tag="rec-" + tag)
     bad = {}
     for f in fails:
         if f.kind == "inv" and f.got.startswith("harness:op_") and f.got.endswith("_on_absent_slot"):
@@ -628,7 +758,10 @@ def record_and_validate(ctx, exe, execs, variant="direct", tag="mbuff"):
                 # the harness reports what the ENVIRONMENT did (errors returned, bytes delivered): event arguments
                 args = list(args) + [rv["hard"], rv["eintr"], rv["d"]]
                 rv = rv["ok"]
-            ev = {"op": op, "args": args, "ret": rv, "ca": post["a"] != prev["a"], "cb": post["b"] != prev["b"]}
+            cargs, raw = clip_args(op, args)
+            ev = {"op": op, "args": cargs, "ret": rv, "ca": post["a"] != prev["a"], "cb": post["b"] != prev["b"]}
+            if raw:
+                ev["raw"] = raw          # the real 64-bit arguments (uninterpreted by the specification)
             if ev["ca"]:
                 ev["pa"] = post["a"]
             if ev["cb"]:
@@ -693,12 +826,32 @@ def record_and_validate(ctx, exe, execs, variant="direct", tag="mbuff"):
 def trace_validation(ctx, exe, variant="direct"):
     execs = gen_executions(ctx)
     r = record_and_validate(ctx, exe, execs, variant)
+    tot = dict(r)
+    # round 4: the extreme-argument family through the direct functions AND through the class table; and the runtime debug
+    # level as a dimension: the families below are recorded again at DEBUG_LEVEL 5 (thorough: 1, 3, 5) - the specification does
+    # not know the level, so every value and return value must be the same
+    rnd = random.Random(ctx.seed + 4)
+    quick = ctx.tier == "quick"
+    ext = extreme_execs(rnd, quick)
+    fam = ext + copy_execs(rnd, True) + fault_execs(rnd, True)[:240] + execs[-8:]
+    extra = [("direct", ext, None, "ext-d"), ("table", ext, None, "ext-t")]
+    for lvl in ((5,) if quick else (1, 3, 5)):
+        extra.append(("table" if lvl == 3 else "direct", fam, lvl, "lvl%d" % lvl))
+    levels = {}
+    for var, ex, lvl, tag in extra:
+        rr = record_and_validate(ctx, exe, ex, var, tag=tag, env={"VH_DEBUG_LEVEL": str(lvl)} if lvl is not None else None)
+        for k in ("executions", "recorded", "events", "accepted_events", "ret_mismatches", "rejected"):
+            tot[k] += rr[k]
+        tot["maxlen"] = max(tot["maxlen"], rr["maxlen"])
+        levels[tag] = {"variant": var, "debug_level": 0 if lvl is None else lvl, "executions": rr["recorded"], "events_accepted": rr["accepted_events"]}
+    r = tot
     ctx.add("trace_events_validated", r["accepted_events"])
     ctx.add("traces_validated_against_impl", r["recorded"])
     ctx.cov["trace"] = {"executions": r["executions"], "executions_recorded": r["recorded"], "events": r["events"],
                         "events_accepted": r["accepted_events"], "return_value_mismatches": r["ret_mismatches"],
                         "max_len_seen": r["maxlen"], "sizes": SIZES,
-                        "input_kinds": ["file", "seek(non-zero offset)", "pipe", "pieces(forked writer)"]}
+                        "input_kinds": ["file", "seek(non-zero offset)", "pipe", "pieces(forked writer)"],
+                        "extreme_values": [str(v) for v in EXTREMES], "extra_passes": levels}
 
 
 def _clip(ev):
